@@ -197,6 +197,9 @@ func stripParens(j any) any {
 		}
 		out := J{}
 		for k, v := range x {
+			if k == "fillname" || k == "fillnum" {
+				continue // model-facing duplicates of fill / fillvalue
+			}
 			out[k] = stripParens(v)
 		}
 		return out
